@@ -67,9 +67,15 @@ fn big_cfg() -> WebSocketConfig {
     c.max_frame_size = None;
     c
 }
-fn limits_of(l: Option<u64>) -> WebSocketLimits {
+/// the outbound guard depends on the assumed peer limit alone: the endpoint's own inbound
+/// thresholds vary with the case (`v`): the defaults, none at all, or smaller than the assumed limit
+fn limits_of(l: Option<u64>, v: u64, small_inbound_ok: bool) -> WebSocketLimits {
     match l {
-        Some(n) => WebSocketLimits::default().with_assumed_peer_frame_limit(Some(n as usize)),
+        Some(n) => match v % 3 {
+            1 => WebSocketLimits::unlimited().with_assumed_peer_frame_limit(Some(n as usize)),
+            2 if small_inbound_ok => WebSocketLimits::default().with_max_incoming_frame_size(Some(512)).with_max_incoming_message_size(Some(512)).with_assumed_peer_frame_limit(Some(n as usize)),
+            _ => WebSocketLimits::default().with_assumed_peer_frame_limit(Some(n as usize)),
+        },
         None => WebSocketLimits::unlimited(),
     }
 }
@@ -140,7 +146,7 @@ async fn run_server_path(c: &Case) -> Result<String, String> {
     let blen = (c.flen - 48 - tlen) as usize;
     if !is_notify && blen < 2 { return Err("badcase:flen-too-small".into()); }
     if is_notify && c.id != 0 { return Err("badcase:notify-id".into()); }
-    let limits = limits_of(c.limit);
+    let limits = limits_of(c.limit, c.id ^ c.flen, c.qlen.is_none());
     let (trigger_id, marker_id, alive_id) = (c.id.wrapping_add(1), c.id.wrapping_add(2), c.id.wrapping_add(3));
 
     let notify_body = Arc::new(if is_notify { pattern(blen) } else { vec![] });
@@ -292,7 +298,7 @@ async fn run_client_path(c: &Case) -> Result<String, String> {
             }
         }
     }));
-    let client = to(T_CONN, "client-connect", WebSocketClient::connect_with_limits(&format!("ws://{addr}/repe"), limits_of(c.limit))).await?.map_err(|e| format!("client-connect:{e}"))?;
+    let client = to(T_CONN, "client-connect", WebSocketClient::connect_with_limits(&format!("ws://{addr}/repe"), limits_of(c.limit, c.id ^ c.flen, true))).await?.map_err(|e| format!("client-connect:{e}"))?;
     // the client numbers its messages 1, 2, ...: id-1 small calls make the
     // message under test carry exactly the id of the case
     for k in 1..c.id {
